@@ -3,7 +3,7 @@
    evaluated by oracles on the implementation (props/C14.py).  Proved here over the model of
    write_tape that the correspondence check runs (Writer.v): *)
 From JV Require Import Bytes Tables TextTok Date Writer.
-From JV.proofs Require Import WriterProofs.
+From JV.proofs Require Import WriterTapeProofs.
 Open Scope N_scope.
 
 (* "under any indent configuration": for EVERY indent char and factor (any u8, any depth -- the
@@ -37,16 +37,13 @@ Theorem C14_traversal_restores_depth : forall fuel c t j w,
 Proof. exact wt_balanced. Qed.
 Print Assumptions C14_traversal_restores_depth.
 
-(* tape scalars are written verbatim (already escaped): separator by state, bytes, table transition *)
-Theorem C14_scalar_verbatim : forall c w data,
-  write_escaped_quotes c w data = WOk (epi_state (pre_state w)) (pre_bytes c w ++ ([QUOTE] ++ data ++ [QUOTE]) ++ []) /\
-  write_raw c w data = WOk (epi_state (pre_state w)) (pre_bytes c w ++ data ++ []).
-Proof. intros. split; [apply write_escaped_quotes_shape | apply write_raw_shape]. Qed.
-Print Assumptions C14_scalar_verbatim.
-
-Theorem C14_transition_table : forall s, ws_next s = Ok (ws_next_spec s).
-Proof. exact ws_next_table. Qed.
-Print Assumptions C14_transition_table.
+(* the transitions write_tape can take (it never calls write_start, so FirstUnknown / SecondUnknown
+   are out of its reach) are these, read from the table regenerated from writer.rs; and the lookup
+   can never panic whatever the table holds *)
+Theorem C14_tape_transitions : forall s,
+  (tape_state s = true -> ws_next s = Ok (ws_next_spec s)) /\ exists s', ws_next s = Ok s'.
+Proof. intros s. split; [apply ws_next_tape_table | apply ws_next_total]. Qed.
+Print Assumptions C14_tape_transitions.
 
 (* non-vacuity: a concrete tape (a={b=c}) is written completely, ends at depth 0, as "a={\n  b=c\n}" *)
 Example C14_nonvacuous :
